@@ -1621,3 +1621,6 @@ for _i in (1, 2, 3, 4, 5, 6, 7, 8, 10, 11, 12, 13, 14, 15, 16, 17, 18, 19, 20):
 for _i in (1, 2, 3, 4, 5, 6, 7, 8, 10, 11, 12, 13, 14, 15, 16, 17, 18, 19, 20):
     VARIANTS.append(dict(id="np-constructors-c%02d" % _i, prop="C%02d" % _i, expect="undecided", rule=None, edits=[("@np_constructors",)],
                          what="shapes as lists, arange(0, n), logical_and/or/not on comparisons as & | ~, sums of comparisons as count_nonzero: accepted or undecided, never an alarm"))
+for _i in (1, 2, 3, 4, 5, 6, 7, 8, 10, 11, 12, 13, 14, 15, 16, 17, 18, 19, 20):
+    VARIANTS.append(dict(id="literal-spellings-c%02d" % _i, prop="C%02d" % _i, expect="undecided", rule=None, edits=[("@literal_spellings",)],
+                         what="[] -> list(), {} -> dict(), set([a, b]) -> {a, b}, sorted(x) -> sorted(list(x)), raise messages re-worded: accepted or undecided, never an alarm"))
